@@ -64,7 +64,7 @@ def check_case(ctx, case):
 def gen_sources(ctx, rng):
     """yield (gen name, ddl, ctor) from the shared pool of every generator (vf.gen.sources)"""
     from vf.gen import sources
-    k, ddl = sources.any_script(rng)
+    k, ddl = sources.any_script(rng, kinds=["mixed", "mixed", "tables", "tables", "tables", "tables", "history", "dialect", "types", "idents", "entities", "sequences", "commented"])
     ctx.obs["source:" + k] += 1
     return k, ddl, {}
 
